@@ -7,6 +7,8 @@ import time
 from fractions import Fraction
 
 import sympy as sp
+
+from . import sym as _sym_mod
 import z3
 from sympy.core.function import AppliedUndef
 
@@ -151,6 +153,9 @@ class Conv:
             r = self._fresh("modr")
             self.side += [a == z3.ToReal(q) * b + r, z3.If(b > 0, z3.And(r >= 0, r < b), z3.And(r <= 0, r > b))]
             return r
+        if isinstance(e, AppliedUndef) and e.func in _sym_mod.LETS:
+            idx, body = _sym_mod.LETS[e.func]
+            return self.num(body.xreplace(dict(zip(idx, e.args))) if idx else body)
         if isinstance(e, AppliedUndef):
             name = e.func.__name__
             args = [self.num(a) for a in e.args]
